@@ -217,7 +217,9 @@ NoBy == [method |-> "none", sel |-> <<>>, blank |-> FALSE]
 \* what a call asks for (ghost: recorded in the directory it builds)
 Req(c) == [method |-> IF c.method = "AUTO" /\ BadSel(c) THEN "none" ELSE Chosen(c), sel |-> IF BadSel(c) THEN <<>> ELSE SelId(c), blank |-> c.blank]
 \* a directory: its tile files, the layout they were produced in, the root tile's DATAMIN / DATAMAX, index_rel.wtml
-Absent == [ex |-> FALSE, tiles |-> {}, lay |-> "none", rng |-> NoRange, wtml |-> FALSE, wt |-> NoDesc, by |-> NoBy]
+\* (ghosts: `by` = what the call that completed the directory asked for; `wk` = a call of the table that wrote the tiles,
+\* 0 = nobody - the representative Canon[k] of the calls that differ from k in `override` only)
+Absent == [ex |-> FALSE, tiles |-> {}, lay |-> "none", rng |-> NoRange, wtml |-> FALSE, wt |-> NoDesc, by |-> NoBy, wk |-> 0]
 PosOf(tiles) == {t.pos : t \in tiles}
 LeafVals(tiles) == UNION {t.vals : t \in tiles}
 HasRoot(d) == \E t \in d.tiles : t.pos[1] = 0
@@ -271,19 +273,23 @@ Cmds == DOMAIN CmdTable
 \* them AFTER the data tables (TLC evaluates constant definitions in module order, the data of an extending module last),
 \* sharing AnalyseCore between the calls that differ in out_dir / override only.  PlanIsAnalyse is checked on the
 \* state-independent table.
-CONSTANTS Plan, DirIds
+CONSTANTS Plan, DirIds,
+          Canon        \* [Cmds -> Cmds]: one representative per class of calls that differ in `override` only (CanonOK; like every state-independent theorem it takes a parameter, because TLC evaluates
+                       \* every parameterless constant definition at start-up, before the tables of the MC module are tabulated)
+CanonOK(K) == \A k \in K : /\ Canon[k] \in Cmds /\ Canon[Canon[k]] = Canon[k]
+                           /\ [CmdTable[Canon[k]] EXCEPT !.override = FALSE] = [CmdTable[k] EXCEPT !.override = FALSE]
 PlanIsAnalyse(K) == /\ \A k \in K : Plan[k] = Analyse(CmdTable[k])
                     /\ DirIds = {Plan[k].dir : k \in Cmds} \ {<<>>}
 
 \* ============================================================================ one call on the directories: Apply
 \* tiles written into a directory that still holds tiles (only when OverrideClears = FALSE): update_image merges
 MergeTiles(old, new) == {Tile(p, UNION {t.vals : t \in {u \in old \cup new : u.pos = p}}) : p \in PosOf(old) \cup PosOf(new)}
-Written(old, p, complete) ==
+Written(old, p, complete, k) ==
     LET tiles == MergeTiles(old.tiles, p.tiles)
     IN [ex |-> TRUE, tiles |-> tiles, lay |-> p.lay,
         rng |-> IF \E t \in tiles : t.pos[1] = 0 THEN ValRange(LeafVals(tiles)) ELSE NoRange,
         wtml |-> IF complete THEN TRUE ELSE old.wtml, wt |-> IF complete THEN p.desc ELSE old.wt,
-        by |-> IF complete THEN p.req ELSE old.by]
+        by |-> IF complete THEN p.req ELSE old.by, wk |-> Canon[k]]
 \* a raising call returns nothing
 Raised(kind, act, p) == [ok |-> FALSE, kind |-> kind, act |-> act, dir |-> p.dir, method |-> p.method, desc |-> NoDesc, self |-> FALSE]
 \* which branch of FitsTiler.tile call k takes on directories D (the name of the action)
@@ -311,9 +317,9 @@ Apply(k, D) ==
                  [] act \in {"HipsUnavailable", "FailAfterRemove", "FailBeforeTiling"} ->
                       [dirs |-> [D EXCEPT ![p.dir] = cleared], ret |-> Raised(kind, act, p)]
                  [] act = "FailLate" ->
-                      [dirs |-> [D EXCEPT ![p.dir] = Written(cleared, p, FALSE)], ret |-> Raised(kind, act, p)]
+                      [dirs |-> [D EXCEPT ![p.dir] = Written(cleared, p, FALSE, k)], ret |-> Raised(kind, act, p)]
                  [] OTHER ->
-                      [dirs |-> [D EXCEPT ![p.dir] = Written(cleared, p, TRUE)],
+                      [dirs |-> [D EXCEPT ![p.dir] = Written(cleared, p, TRUE, k)],
                        ret |-> [ok |-> TRUE, kind |-> kind, act |-> act, dir |-> p.dir, method |-> p.method, desc |-> p.desc, self |-> TRUE]]
 
 \* ============================================================================ state machine
@@ -362,11 +368,11 @@ TypeOK == /\ \A d \in DirIds : dirs[d].ex \in BOOLEAN /\ dirs[d].wtml \in BOOLEA
 \*     recorded as its builder, nothing older is left
 CompleteIsConsistent == \A d \in DirIds : dirs[d].wtml =>
                             /\ Describes(dirs[d].wt, dirs[d])
-                            /\ \E k \in Cmds : Plan[k].req = dirs[d].by /\ Plan[k].route = "ok" /\ Plan[k].dir = d
-                                               /\ dirs[d].tiles = Plan[k].tiles /\ dirs[d].wt = Plan[k].desc
+                            /\ LET k == dirs[d].wk IN k \in Cmds /\ Plan[k].req = dirs[d].by /\ Plan[k].route = "ok" /\ Plan[k].dir = d
+                                                      /\ dirs[d].tiles = Plan[k].tiles /\ dirs[d].wt = Plan[k].desc
 \* (2) a directory without index_rel.wtml was left by a call that raised after creating it; it holds at most that call's tiles
 PartialIsLeftover == \A d \in DirIds : (dirs[d].ex /\ ~dirs[d].wtml) =>
-                         \E k \in Cmds : Plan[k].route = "late" /\ Plan[k].dir = d /\ dirs[d].tiles = Plan[k].tiles
+                         LET k == dirs[d].wk IN k \in Cmds /\ Plan[k].route = "late" /\ Plan[k].dir = d /\ dirs[d].tiles = Plan[k].tiles
 \* (3) no two directories are confused: a directory's recorded name is its own
 NamesAreOwn == \A d \in DirIds : dirs[d].wtml => dirs[d].wt.name = NameOf(d)
 
@@ -409,7 +415,7 @@ OwnDirectoryOnly(k) == LET r == After(k) IN
 \*     directory - which is its own request exactly when the action is not ReuseServesEarlier / ReusePartial
 ServedIsBuilder(k) == LET r == After(k) IN
     (r.ret.ok /\ r.dirs[r.ret.dir].wtml) =>
-        /\ \E b \in Cmds : Plan[b].req = r.dirs[r.ret.dir].by /\ Plan[b].dir = r.ret.dir /\ r.ret.desc = Plan[b].desc
+        /\ LET b == r.dirs[r.ret.dir].wk IN b \in Cmds /\ Plan[b].req = r.dirs[r.ret.dir].by /\ Plan[b].dir = r.ret.dir /\ r.ret.desc = Plan[b].desc
         /\ (r.ret.act \in {"TileFresh", "TileOverride", "ReuseSame"}) = (r.dirs[r.ret.dir].by = Plan[k].req)
 \* (10) out_dir: an explicit directory is used as given; a derived one depends on the first path and the method only
 OutDirRule(k) == LET c == CmdTable[k] IN
